@@ -651,6 +651,36 @@ theorem C04_combinefirst_values (B : BinOp γ) (X Y : Frame γ) (p : Parent) (de
 example : combineFirst ["a", "b", "c"] ["b", "c", "k"] (.list ["k", "b"]) [] =
     some { childs := [some (.many ["b"]), some (.many ["b", "k"])], keep := true } := by decide
 
+/-- OpAlignPartitions / MethodOperatorAlign (binary operators on frames that are not co-aligned): BOTH operands are
+    projected, each onto the requested columns it has (D32) -/
+theorem C04_opalign_wf (frame : List Name) (other : Option (List Name)) (p : Parent) (deps : List Dep) (rw : Rw)
+    (h : opAlign frame other p deps = some rw) :
+    ∃ oc0 fc oc, other = some oc0 ∧ rw.childs = [some (.many fc), some (.many oc)] ∧ rw.keep = true ∧
+      Adequate frame [] p.cols fc ∧ Adequate oc0 [] p.cols oc := by
+  obtain ⟨oc0, ho, hrw⟩ := opAlign_spec h
+  exact ⟨oc0, _, _, ho, by rw [hrw], by rw [hrw], adequate_union_contains frame p deps [], adequate_union_contains oc0 p deps []⟩
+
+theorem C04_opalign_labels (B : BinOp γ) (X Y : Frame γ) (p : Parent) (deps : List Dep) (rw : Rw)
+    (h : opAlign X.cols (some Y.cols) p deps = some rw) : (evalBin B p.cols rw X Y).cols = p.cols := by
+  obtain ⟨_, _, hrw⟩ := opAlign_spec h
+  rw [hrw]; rfl
+
+theorem C04_opalign_values (B : BinOp γ) (X Y : Frame γ) (p : Parent) (deps : List Dep) (rw : Rw)
+    (h : opAlign X.cols (some Y.cols) p deps = some rw) (c : Name) (hc : c ∈ p.cols) :
+    (evalBin B p.cols rw X Y).val c = ((B.op X Y).select p.cols).val c := by
+  obtain ⟨oc0, ho, hrw⟩ := opAlign_spec h
+  cases ho
+  rw [hrw]
+  simp only [evalBin, selOpt_many]
+  rw [select_val_mem hc, select_val_mem hc]
+  have hh : (fun x => (detProj p deps []).toList.contains x) c = true := detProj_contains.mpr (parent_mem_union hc)
+  exact binop_values B X Y _ _ c (filter_contains_of_pred hh) (filter_contains_of_pred hh)
+
+example : opAlign ["a", "b"] (some ["a", "b"]) (.list ["a"]) [] =
+    some { childs := [some (.many ["a"]), some (.many ["a"])], keep := true } := by decide
+example : opAlign ["a", "b"] (some ["b", "c"]) (.list ["a"]) [] =
+    some { childs := [some (.many ["a"]), some (.many [])], keep := true } := by decide
+
 /-- FULL STATEMENT (false on the current tree): every projection `Binop._simplify_up` places on an operand selects
     columns that operand has.
     The rule projects BOTH frame operands onto the requested *output* columns; an operand that lacks one of them
@@ -746,10 +776,10 @@ theorem C04_astype_values (A : AsTypeOp γ) (F : Frame γ) (dkeys : Option (List
   have hcF' : F.cols.contains c = true := List.contains_iff_mem.mpr hcF
   rw [select_val_mem hc, A.op_val dkeys F c hcF']
   -- the cast flag of `c` survives the filtering of the dtype dict
-  have hflag : castFlag (dkeys.map (·.filter (detProj p deps []).has)) c = castFlag dkeys c := by
+  have hflag : castFlag (dkeys.map (·.filter ((detProj p deps []).toList.contains ·))) c = castFlag dkeys c := by
     cases dkeys with
     | none => rfl
-    | some l => exact has_filter_iff hhas
+    | some l => exact filter_contains_of_pred (detProj_contains.mpr (parent_mem_union hc))
   rcases astype_spec h with ⟨hg, hrw⟩ | ⟨_, ⟨l, hl, hrw⟩ | ⟨s, hs, hrw⟩⟩
   · -- no requested column is cast
     rw [hrw]
@@ -758,14 +788,14 @@ theorem C04_astype_values (A : AsTypeOp γ) (F : Frame γ) (dkeys : Option (List
     show F.val c = A.cast false c (F.val c)
     rw [A.cast_false]
   · rw [hrw]
-    simp only [evalAsType, Bool.false_eq_true, if_false, if_true, Sel.toList]
+    simp only [evalAsType, Bool.false_eq_true, if_false, if_true, Sel.toList_many]
     have hcl : c ∈ F.cols.filter (l.contains ·) := by
       rw [List.mem_filter]; refine ⟨hcF, ?_⟩
       rw [hl] at hhas; exact hhas
     rw [select_val_mem hc, A.op_val _ _ c (by rw [select_cols]; exact List.contains_iff_mem.mpr hcl),
       select_val_mem hcl, hflag]
   · rw [hrw]
-    simp only [evalAsType, Bool.false_eq_true, if_false, Sel.toList]
+    simp only [evalAsType, Bool.false_eq_true, if_false, Sel.toList_one]
     obtain ⟨hu, _⟩ := detProj_one hs
     have hcs : c = s := by
       have := parent_mem_union (deps := deps) (extra := []) hc
@@ -774,14 +804,12 @@ theorem C04_astype_values (A : AsTypeOp γ) (F : Frame γ) (dkeys : Option (List
     have hcl : c ∈ [c] := by simp
     rw [A.op_val _ _ c (by rw [select_cols]; exact List.contains_iff_mem.mpr hcl), select_val_mem hcl, hflag]
 
-/-- FULL STATEMENT (false on the current tree): the surviving dtype keys are columns of the pruned input, for every
-    request.  When determine_column_projection collapses to one string, `key in columns` is a substring test and keeps
-    dtype keys that are substrings of the selected label: `df.astype({'a': 'float64'})['ab']` raises KeyError (N3). -/
-theorem C04_astype_wf_partial (frame : List Name) (dkeys : Option (List Name)) (p : Parent) (hp : p.overFrame)
+/-- the surviving dtype keys are columns of the pruned input (pandas refuses other keys), for every request —
+    dtype keys are matched against the labels of the request, also when it collapsed to one label (D33) -/
+theorem C04_astype_wf (frame : List Name) (dkeys : Option (List Name)) (p : Parent) (hp : p.overFrame)
     (deps : List Dep) (rw : Rw)
     (h : astype frame dkeys p deps = some rw) (hd : ∀ l, dkeys = some l → ∀ k, k ∈ l → k ∈ frame)
-    (hreq : ∀ c, c ∈ p.cols → c ∈ frame)
-    (hsubstr : ∀ s l, detProj p deps [] = .one s → dkeys = some l → ∀ k, k ∈ l → strInfix k s = true → k = s) :
+    (hreq : ∀ c, c ∈ p.cols → c ∈ frame) :
     rw.gone = true ∨
     ∃ s, rw.childs = [some s] ∧ Adequate frame [] p.cols s.toList ∧ ∀ l, rw.keys = some l → ∀ k, k ∈ l → k ∈ s.toList := by
   rcases astype_spec h with ⟨_, hrw⟩ | ⟨_, ⟨l, hl, hrw⟩ | ⟨s, hs, hrw⟩⟩
@@ -828,13 +856,12 @@ theorem C04_astype_wf_partial (frame : List Name) (dkeys : Option (List Name)) (
         simp only [Option.map_some, Option.some.injEq] at hl'
         subst hl'
         rw [List.mem_filter, hs] at hk
-        have := hsubstr s dl hs rfl k hk.1 hk.2
-        simp [Sel.toList, this]
+        simpa [Sel.toList] using hk.2
 
-theorem C04_astype_counterexample :
-    astype ["a", "ab"] (some ["a"]) (.scalar "ab") [] = some { childs := [some (.one "ab")], keep := false, keys := some ["a"] } := by
-  decide
-
+-- D33: a dtype key that is a substring of the selected label is not kept; here no selected column is cast at all
+example : astype ["a", "ab"] (some ["a"]) (.scalar "ab") [] = some { childs := [none], keep := true, gone := true } := by decide
+example : astype ["a", "ab"] (some ["a", "ab"]) (.scalar "ab") [] =
+    some { childs := [some (.one "ab")], keep := false, keys := some ["ab"] } := by decide
 example : astype ["a", "b", "c"] (some ["a", "b"]) (.list ["c", "a"]) [] =
     some { childs := [some (.many ["a", "c"])], keep := true, keys := some ["a"] } := by decide
 example : astype ["a", "b", "c"] (some ["a"]) (.list ["c"]) [] = some { childs := [none], keep := true, gone := true } := by decide
@@ -1001,63 +1028,54 @@ example : mergeLabels ⟨["k"], ["k"], "_x", "_y"⟩ ["k", "b", "c"] ["k", "b", 
 
 /-! ### 11. Concat -/
 
-theorem C04_concat_counterexample :
-    concat false false [["a", "b"], ["c", "d"]] (.list ["a"]) [] =
-      some { childs := [some (.many ["a"]), some (.many [])], keep := false } := by decide
-
 theorem concat_spec {axis1 inner : Bool} {frames : List (List Name)} {p : Parent} {deps : List Dep} {rw : Rw}
     (h : concat axis1 inner frames p deps = some rw) :
-    rw.childs = frames.map (concatChild (detProj p deps []).toList) := by
+    rw.childs = frames.map (concatChild (detProj p deps []).toList) ∧
+    rw.dropped = frames.map (concatDropped axis1 (detProj p deps []).toList) := by
   unfold concat at h
   simp only at h
   split at h
   · cases h
-  · cases h; rfl
+  · cases h; exact ⟨rfl, rfl⟩
 
-/-- FULL STATEMENT (false on the current tree): every input keeps its rows.
-    PARTIAL: when every input contributes at least one requested column no input is dropped, and every input is either
-    left alone or pruned to a sub-schema that still has all requested columns it had. -/
-theorem C04_concat_wf_partial (axis1 inner : Bool) (frames : List (List Name)) (p : Parent) (deps : List Dep) (rw : Rw)
-    (h : concat axis1 inner frames p deps = some rw)
-    (hall : ∀ f, f ∈ frames → ∃ c, c ∈ f ∧ c ∈ unionCols p deps []) :
-    rw.childs = frames.map (concatChild (detProj p deps []).toList) ∧
-    ∀ f, f ∈ frames → (concatChild (detProj p deps []).toList f = none ∨
-      ∃ cs, concatChild (detProj p deps []).toList f = some (.many cs) ∧ cs ≠ [] ∧ Adequate f [] p.cols cs) := by
-  refine ⟨concat_spec h, ?_⟩
-  intro f hf
-  obtain ⟨c, hcf, hcu⟩ := hall f hf
-  have hne : f.filter ((detProj p deps []).toList.contains ·) ≠ [] := by
-    intro hnil
-    have : c ∈ f.filter ((detProj p deps []).toList.contains ·) :=
-      List.mem_filter.mpr ⟨hcf, detProj_contains.mpr hcu⟩
-    rw [hnil] at this; cases this
-  unfold concatChild
-  simp only
-  rw [if_neg (by simpa using hne)]
-  split
-  · exact Or.inl rfl
-  · exact Or.inr ⟨_, rfl, hne, adequate_union_contains f p deps []⟩
-
-theorem concatChild_cases (columns f : List Name) (hne : f.filter (columns.contains ·) ≠ []) :
+theorem concatChild_cases (columns f : List Name) :
     concatChild columns f = none ∨ concatChild columns f = some (.many (f.filter (columns.contains ·))) := by
   unfold concatChild
   simp only
-  rw [if_neg (by simpa using hne)]
   split
   · exact Or.inl rfl
   · exact Or.inr rfl
 
-/-- values under the same hypothesis: every input's block of a requested column is what it was -/
-theorem C04_concat_values_partial (C : ConcatOp γ) (Fs : List (Frame γ)) (columns : List Name)
-    (hall : ∀ F, F ∈ Fs → F.cols.filter (columns.contains ·) ≠ []) (c : Name) (hc : c ∈ columns) :
+/-- stacking rows (`axis=0`): no input is ever removed (D31), every input is left alone or pruned to a sub-schema that
+    still has all requested columns it had -/
+theorem C04_concat_wf (inner : Bool) (frames : List (List Name)) (p : Parent) (deps : List Dep) (rw : Rw)
+    (h : concat false inner frames p deps = some rw) :
+    (∀ b, b ∈ rw.dropped → b = false) ∧
+    rw.childs = frames.map (concatChild (detProj p deps []).toList) ∧
+    ∀ f, f ∈ frames → (concatChild (detProj p deps []).toList f = none ∨
+      ∃ cs, concatChild (detProj p deps []).toList f = some (.many cs) ∧ Adequate f [] p.cols cs) := by
+  obtain ⟨hc, hd⟩ := concat_spec h
+  refine ⟨?_, hc, ?_⟩
+  · intro b hb
+    rw [hd, List.mem_map] at hb
+    obtain ⟨f, _, hf⟩ := hb
+    rw [← hf]; rfl
+  · intro f _
+    rcases concatChild_cases (detProj p deps []).toList f with h1 | h1
+    · exact Or.inl h1
+    · exact Or.inr ⟨_, h1, adequate_union_contains f p deps []⟩
+
+/-- values (`axis=0`): every input's block of a requested column is what it was — an input that has none of the
+    requested columns still contributes its (null) block -/
+theorem C04_concat_values (C : ConcatOp γ) (Fs : List (Frame γ)) (columns : List Name) (c : Name) (hc : c ∈ columns) :
     (C.op (Fs.map (fun F => selOpt (concatChild columns F.cols) F))).val c = (C.op Fs).val c := by
   rw [C.op_val, C.op_val, List.map_map]
   congr 1
   apply List.map_congr_left
-  intro F hF
+  intro F _
   show (if (selOpt (concatChild columns F.cols) F).cols.contains c = true then
       (selOpt (concatChild columns F.cols) F).val c else none) = _
-  rcases concatChild_cases columns F.cols (hall F hF) with hcc | hcc
+  rcases concatChild_cases columns F.cols with hcc | hcc
   · rw [hcc]; rfl
   · rw [hcc, selOpt_many, select_cols]
     have hpc : (fun x => columns.contains x) c = true := List.contains_iff_mem.mpr hc
@@ -1067,8 +1085,41 @@ theorem C04_concat_values_partial (C : ConcatOp γ) (Fs : List (Frame γ)) (colu
       exact select_val_mem (List.mem_filter.mpr ⟨List.contains_iff_mem.mp hin, hpc⟩)
     · rw [if_neg hin, if_neg hin]
 
+/-- FULL STATEMENT (false on the current tree): `C04_concat_wf` for `axis=1` as well — no input is removed.
+    With `axis=1` an input that contributes no selected column is removed from the Concat although it takes part in
+    the index join (D35, open: pinned by the repository's own tests).
+    PARTIAL: when every input contributes a requested column nothing is removed. -/
+theorem C04_concat_axis1_wf_partial (inner : Bool) (frames : List (List Name)) (p : Parent) (deps : List Dep) (rw : Rw)
+    (h : concat true inner frames p deps = some rw)
+    (hall : ∀ f, f ∈ frames → ∃ c, c ∈ f ∧ c ∈ unionCols p deps []) :
+    (∀ b, b ∈ rw.dropped → b = false) ∧
+    rw.childs = frames.map (concatChild (detProj p deps []).toList) := by
+  obtain ⟨hc, hd⟩ := concat_spec h
+  refine ⟨?_, hc⟩
+  intro b hb
+  rw [hd, List.mem_map] at hb
+  obtain ⟨f, hf, hfb⟩ := hb
+  obtain ⟨c, hcf, hcu⟩ := hall f hf
+  rw [← hfb]
+  unfold concatDropped
+  have : (f.filter ((detProj p deps []).toList.contains ·)).isEmpty = false := by
+    have hm : c ∈ f.filter ((detProj p deps []).toList.contains ·) :=
+      List.mem_filter.mpr ⟨hcf, detProj_contains.mpr hcu⟩
+    cases hl : f.filter ((detProj p deps []).toList.contains ·) with
+    | nil => rw [hl] at hm; cases hm
+    | cons _ _ => rfl
+  rw [this]; rfl
+
+/-- D35: concat([A(a,b), B(c,d)], axis=1)[['a']] removes B from the index join -/
+theorem C04_concat_axis1_counterexample :
+    concat true false [["a", "b"], ["c", "d"]] (.list ["a"]) [] =
+      some { childs := [some (.many ["a"]), some (.many [])], keep := false, dropped := [false, true] } := by decide
+
+-- D31: with axis=0 the second input stays (projected to no columns: it still contributes its rows)
+example : concat false false [["a", "b"], ["c", "d"]] (.list ["a"]) [] =
+    some { childs := [some (.many ["a"]), some (.many [])], keep := false, dropped := [false, false] } := by decide
 example : concat false false [["a", "b"], ["b", "c"]] (.list ["b"]) [] =
-    some { childs := [some (.many ["b"]), some (.many ["b"])], keep := false } := by decide
+    some { childs := [some (.many ["b"]), some (.many ["b"])], keep := false, dropped := [false, false] } := by decide
 
 /-! ### 12. RollingReduction -/
 
@@ -1233,16 +1284,16 @@ example : ["a", "u", "b", "w", "k"].filter ((detProj (.list ["a"]) [] ["k"]).toL
 /-! ### 16. T1: which live classes hand a Projection to plain_column_projection -/
 
 /-- classes that reach `plain_column_projection` although pruning their `frame` operand alone is not sound;
-    each is a reported failing input (N2 OpAlignPartitions/MethodOperatorAlign, N8 Categorize, N9 Corr/Cov, N10 Mode) -/
+    each is a reported failing input (N8 Categorize, N9 Corr/Cov, N10 Mode) -/
 def knownUnsoundPlain : List String :=
-  ["dask_expr._expr.OpAlignPartitions", "dask_expr._expr.MethodOperatorAlign", "dask_expr._categorical.Categorize",
-   "dask_expr._reductions.Corr", "dask_expr._reductions.Cov", "dask_expr._reductions.Mode"]
+  ["dask_expr._categorical.Categorize", "dask_expr._reductions.Corr", "dask_expr._reductions.Cov",
+   "dask_expr._reductions.Mode"]
 
 def projEntryOk (e : Generated.ProjEntry) : Bool :=
   (!e.plainUser || e.cat == .columnLocal || knownUnsoundPlain.contains e.name) && (!e.absorb || e.cat == .source)
 
 /-- FULL STATEMENT (false on the current tree): every class handing a Projection to `plain_column_projection` is
-    column-local.  PARTIAL: every such class is column-local or one of the six listed exceptions; every class with
+    column-local.  PARTIAL: every such class is column-local or one of the four listed exceptions; every class with
     `_absorb_projections` is a source.  Re-decided by the kernel against the live class table on every run. -/
 theorem C04_passthrough_table_partial : ∀ e, e ∈ Generated.projFlags → projEntryOk e = true := by
   have h : Generated.projFlags.all projEntryOk = true := by decide +kernel
@@ -1255,9 +1306,10 @@ theorem C04_passthrough_sound (e : Generated.ProjEntry) (he : e ∈ Generated.pr
   simp only [projEntryOk, hp, hk, Bool.not_true, Bool.false_or, Bool.or_false, Bool.and_eq_true, beq_iff_eq] at h
   exact h.1
 
-/-- why a second frame operand breaks the pass-through: pruning only `frame` of a union-schema operator leaves the
-    other operand's labels in the result (`(da + db)[['a']]` returns columns a, b — N2) -/
-theorem C04_passthrough_binary_counterexample :
+/-- why an operator with a second frame operand must not use the generic pass-through (D32, fixed: OpAlignPartitions
+    now has its own rule, `C04_opalign_*`): pruning only `frame` of a union-schema operator leaves the other operand's
+    labels in the result -/
+theorem C04_plain_unsound_for_binary :
     let unionSchema : List Name → List Name → List Name := fun a b => a ++ b.filter (fun c => !a.contains c)
     plain ["a", "b"] (.list ["a"]) [] [] = some { childs := [some (.many ["a"])], keep := false } ∧
     unionSchema ["a"] ["a", "b"] ≠ ["a"] := by decide
